@@ -30,10 +30,10 @@ type World struct {
 	ByPath  map[string]*packages.Package // all packages incl. deps
 	Env     []string
 
-	prog    *ssa.Program
-	ssaPkgs map[*types.Package]*ssa.Package
-	cgCHA   *callgraph.Graph
-	cgVTA   *callgraph.Graph
+	prog     *ssa.Program
+	ssaPkgs  map[*types.Package]*ssa.Package
+	cgCHA    *callgraph.Graph
+	cgVTA    *callgraph.Graph
 	modFuncs map[*ssa.Function]bool
 
 	declOf map[*types.Func]*ast.FuncDecl
@@ -169,9 +169,65 @@ func (w *World) Method(rel, typ, name string) *types.Func {
 }
 
 func methodOf(n *types.Named, name string) *types.Func {
+	if n == nil {
+		return nil
+	}
 	obj, _, _ := types.LookupFieldOrMethod(types.NewPointer(n), true, n.Obj().Pkg(), name)
 	f, _ := obj.(*types.Func)
+	if f == nil {
+		f = methodByRole(n, name)
+	}
 	return f
+}
+
+// roleSignatures: unexported methods the rules anchor on, by what they take and return (parameter names dropped,
+// packages by their short name). When a method of that name no longer exists, the unique unexported method of the
+// type with this signature is the same role under another name (a rename is not a change of behaviour).
+var roleSignatures = map[string]string{
+	"ServerDnsListener.validateAndGetUser":  "(uint16, net.Addr) (*dns.userConnection, error)",
+	"ServerDnsListener.newUser":             "(net.Addr) (*dns.userConnection, error)",
+	"ServerDnsListener.closeConnection":     "(*dns.userConnection) (error)",
+	"ServerDnsListener.onMessage":           "(*dns.Msg, net.Addr) (*dns.Msg, error)",
+	"ServerConnection.handshake":            "(*streams.BufferedInputConnection) (error)",
+	"ServerConnection.upgrade":              "(*streams.BufferedInputConnection) (streams.Connection, error)",
+	"ServerConnection.negotiateVersion":     "(string) (string)",
+	"ClientConnection.handshake":            "(*streams.BufferedInputConnection) (error)",
+	"Upstreams.open":                        "(cert.TlsConfig) (error)",
+	"ConnectionHandler.muxHandler":          "(string, io.ReadWriteCloser) (error)",
+	"ConnectionHandler.multiplexToUpstream": "(net.Conn) (error)",
+}
+
+func sigString(sig *types.Signature) string {
+	q := func(p *types.Package) string { return p.Name() }
+	var ps, rs []string
+	for i := 0; i < sig.Params().Len(); i++ {
+		ps = append(ps, types.TypeString(sig.Params().At(i).Type(), q))
+	}
+	for i := 0; i < sig.Results().Len(); i++ {
+		rs = append(rs, types.TypeString(sig.Results().At(i).Type(), q))
+	}
+	return "(" + strings.Join(ps, ", ") + ") (" + strings.Join(rs, ", ") + ")"
+}
+
+func methodByRole(n *types.Named, name string) *types.Func {
+	want, ok := roleSignatures[n.Obj().Name()+"."+name]
+	if !ok {
+		return nil
+	}
+	var found *types.Func
+	for i := 0; i < n.NumMethods(); i++ {
+		m := n.Method(i)
+		if m.Exported() {
+			continue
+		}
+		if sigString(m.Type().(*types.Signature)) == want {
+			if found != nil {
+				return nil // ambiguous
+			}
+			found = m
+		}
+	}
+	return found
 }
 
 // DeclaredMethod returns the method only if it is declared directly on the
